@@ -209,8 +209,17 @@ func propC14(r *kernel.Run) {
 
 	for i := 0; i < nconn; i++ {
 		name := fmt.Sprintf("hostile%d", i)
-		kind := Pick2(tp, "raw-bytes", "alpn", "alpn", "alpn", "dropped-handshake", "dropped-handshake", "stall-then-drop")
+		kind := Pick2(tp, "raw-bytes", "alpn", "alpn", "alpn", "dropped-handshake", "dropped-handshake", "stall-then-drop", "unauthorized-fetch")
 		class := ""
+		// the server's own Close of a refused/handled connection may report an error (peer reset): still a per-connection matter
+		closeErr := tp.Draw(4) == 0
+		if closeErr && kind != "dropped-handshake" {
+			w.Net.NextFault = func(c *simnet.Conn) {
+				c.Peer.CloseErr = errors.New("simulated: close: connection reset by peer")
+				w.Net.NextFault = nil
+			}
+			r.Count("fault.close_reports_error", 1)
+		}
 		switch kind {
 		case "raw-bytes":
 			payload := tp.Bytes(tp.Range(0, 400))
@@ -263,6 +272,16 @@ func propC14(r *kernel.Run) {
 			res := w.DialHonest(name, nodeW, w.Addr)
 			_ = res
 			r.Count("fault.dropped_handshake", 1)
+		case "unauthorized-fetch":
+			// not hostile as such: an unauthorized node fetching; the fetch handshake completes and the server closes the connection
+			class = "pending-node"
+			pw := NewWorld(r, fmt.Sprintf("pending%d", i), "inmem", false, false)
+			if _, err := types.NewNodeCredentials(pw.Ctx, pw.Storage); err != nil {
+				r.HarnessErr("pending creds: %v", err)
+			}
+			res := w.DialHonest(name, pw, w.Addr)
+			_ = res
+			r.Count("ops.unauthorized_fetch", 1)
 		case "stall-then-drop":
 			cut := tp.Range(0, 300)
 			class = fmt.Sprintf("partial-hello-%dB", cut)
